@@ -54,16 +54,24 @@ def value_kind(val):
     return "object"
 
 
-def cover(val, avs, T, path="value"):
-    """Returns (how, why): how in 'value' | 'unknown' | None."""
+def cover(val, avs, T, path="value", depth=0, accessor=None):
+    """Returns (how, why): how in 'value' | 'site' | 'unknown' | None; why = (value kind of the failing part, text)."""
     unknown = any(a["kind"] == "unknown" for a in avs)
+
+    def kind_here(v):
+        if depth == 0:
+            return value_kind(v)
+        if depth == 1:
+            return "object-field" if accessor == "field" else "object-element"
+        return "member-of-member"
+
     if val[0] == "c":
         for a in avs:
             if a["kind"] == "const" and av.const_matches(a, val[2]):
                 return "value", None
         if unknown:
             return "unknown", None
-        return None, (value_kind(val), f"{path} = {val[2]!r}; abstract values: {[brief(a) for a in avs][:6]}")
+        return None, (kind_here(val), f"{path} = {val[2]!r}; abstract values: {[brief(a) for a in avs][:6]}")
     _, line, kind, fields, elems = val
     site_seen = False
     why = None
@@ -85,10 +93,10 @@ def cover(val, avs, T, path="value"):
                 weak = True
                 continue
             cands = list((a.get("fields") or {}).get(f, []))
-            how, w = cover(fv, cands, T, f"{path}.{f}")
+            how, w = cover(fv, cands, T, f"{path}.{f}", depth + 1, "field")
             if how is None:
                 ok = False
-                why = (("object-field" if w[0] != "object-element" else w[0]), w[1])
+                why = w
                 break
             weak = weak or how in ("unknown", "site")
         if ok:
@@ -101,10 +109,10 @@ def cover(val, avs, T, path="value"):
                 if not cands:
                     weak = True        # no element recorded at all: same partial-map convention
                     continue
-                how, w = cover(ev, cands, T, f"{path}[{i}]")
+                how, w = cover(ev, cands, T, f"{path}[{i}]", depth + 1, "element")
                 if how is None:
                     ok = False
-                    why = ("object-element", w[1])
+                    why = w
                     break
                 weak = weak or how in ("unknown", "site")
         if ok:
@@ -112,7 +120,8 @@ def cover(val, avs, T, path="value"):
     if unknown:
         return "unknown", None
     if not site_seen:
-        why = ("object", f"{path}: object allocated at line {line} ({kind}); abstract values: {[brief(a) for a in avs][:6]}")
+        why = (kind_here(val) if depth else "object",
+               f"{path}: object allocated at line {line} ({kind}); abstract values: {[brief(a) for a in avs][:6]}")
     return None, why
 
 
@@ -268,13 +277,17 @@ def judge_program(p, text, T, ms, fold_by_stmt, job):
     seen = set()
     reported = set()
     for vec, r in runs:
-        for line, var, val in r["defs"]:
-            key = (line, var, repr(val))
+        for line, var, val, depth in r["defs"]:
+            key = (line, var, repr(val), min(depth, 3))
             if key in seen:
                 continue
             seen.add(key)
             m = p.meta.get(line, {})
             construct = m.get("construct") or ("parameter" if m.get("kind") == "method" else "?")
+            if depth >= 3:
+                # a callee of a callee: its frame is keyed by (caller, call statement, callee) only and the analysis budget
+                # of that call site is shared by all outer call sites
+                construct += "-in-nested-callee"
             lname = "%this" if var == "self" else var
             avs = []
             found = False
@@ -532,15 +545,31 @@ def main():
     wave = 0
     while pending and wave < 2:
         retry = []
-        for r in forkpool.run_jobs(analyse_batch, pending, timeout=300, tag=f"c08w{wave}"):
+        normal = [j for j in pending if not j.get("explosive")]
+        explosive = [j for j in pending if j.get("explosive")]
+        import itertools
+        for r in itertools.chain(forkpool.run_jobs(analyse_batch, explosive, timeout=120, tag=f"c08x{wave}"),
+                                 forkpool.run_jobs(analyse_batch, normal, timeout=300, tag=f"c08w{wave}")):
             job = r.item
             side = read_side(job)
-            bigs = [e for e in side if e.get("event") == "big-fold-entered"]
+            bigs = [e for e in side if e.get("event") in ("big-fold-entered", "big-fold-produced")]
+            attempted = [e for e in side if e.get("event") == "big-fold-attempted"]
+            chk.count("folds whose operands predict a result above 10^6 bits (handed to compute_two_states)", len(attempted))
             for e in bigs:
-                chk.count("folds entered with a predicted result above 10^6 bits")
+                chk.count("folds entered / produced with a result above 10^6 bits")
+                what = "eval was entered on" if e["event"] == "big-fold-entered" else "a folded state was produced for"
                 chk.fail(f"unbounded-fold:{e.get('operator')}",
-                         f"eval was entered on {e.get('text')!r}: predicted result size {e.get('bits'):.3g} bits",
+                         f"{what} {e.get('text')!r}: predicted result size {e.get('bits'):.3g} bits",
                          dict(job_case(job), witness=e.get("text")))
+            if r.status != "ok" and job.get("explosive") and not bigs:
+                # the property is about running time here: a child that dies or does not come back on an explosive literal
+                last = attempted[-1] if attempted else {}
+                x = job["explosive"][0]
+                chk.fail(f"unbounded-fold:{last.get('operator') or x['name']}",
+                         f"the analysis of `{x['text'].splitlines()[1].strip()}` ended with {r.status} ({str(r.value)[:120]}) "
+                         f"after a fold predicted at {last.get('bits', 0):.3g} bits was handed to compute_two_states ({last.get('text')})",
+                         dict(job_case(job), witness=last.get("text") or x["text"]))
+                continue
             if r.status != "ok":
                 quits = [e for e in side if e.get("event") == "eval-quit"]
                 n_items = len(job["programs"]) + len(job.get("explosive", []))
